@@ -36,7 +36,7 @@ PROPS = {
         "level": "model_checking",
         "technique": "breadth-first exploration of all operation histories on the real Response object up to a depth, with state merging only on the fingerprint of the implementation's complete state; every reached state is serialized by the real send and re-parsed by an independent HTTP parser, compared with a reference model of the history",
         "engine": "vmc",
-        "level_text": "Explicit-state exploration of the history space: 24 public operations (set/append/remove on Server, Vary, Content-Type, Content-Encoding; set/append/remove on two custom headers; Set-Cookie with/without directives; text/JSON/HTML/raw payloads; drop_content) x statuses {200,204,404,500} x {GET,HEAD}. Phase 1: every history up to depth 4 (quick) / 5 (thorough) with no merging. Phase 2: BFS to depth 5 / 7, merging two histories only when the hook-provided fingerprint of the complete internal header state (slot table, value vector with dead entries, size counter, custom map, cookie list) and the content are identical, which cannot hide history-dependent behaviour. The capacity assertion hook turns any write beyond the reserved size into a reported overrun.",
+        "level_text": "Explicit-state exploration of the history space: 25 public operations (set/append/remove on Server, Vary, Content-Type, Content-Encoding; set/append/remove on two custom headers; Set-Cookie with/without directives; text/JSON/HTML/raw payloads; drop_content; set_stream) x statuses {200,204,404,500} x {GET,HEAD}. Phase 1: every history up to depth 4 (quick) / 5 (thorough) with no merging. Phase 2: BFS to depth 5 / 7, merging two histories only when the hook-provided fingerprint of the complete internal header state (slot table, value vector with dead entries, size counter, custom map, cookie list) and the content are identical, which cannot hide history-dependent behaviour. The capacity assertion hook turns any write beyond the reserved size into a reported overrun.",
         "level_note": "Trusted: the reference model (live headers with latest values + body), the independent response parser, hooks H4 (capacity assertion inside push_unchecked!) and H5 (state fingerprint). Deliberately outside the alphabet: hand-written Content-Length/Transfer-Encoding and statuses 1xx/304 (the statement is silent / the framework documents them as the user's responsibility).",
         "jobs": {"quick": 12, "thorough": 12},
         "assumptions": ROUTER_ASSUMPTIONS,
